@@ -319,10 +319,13 @@ func RAOpts(r *rand.Rand, mac refdec.MAC) []refdec.NDPOpt {
 		}
 		o = append(o, refdec.OptDNSSLv(x))
 	}
-	if r.Intn(2) == 0 {
-		pl := pick(r, uint8(0), uint8(48), uint8(64), uint8(96), uint8(128))
+	// route information options (RFC 4191): none, one, or several in one advertisement (a specific route and the default route)
+	for k := pick(r, 0, 0, 1, 1, 2, 3); k > 0; k-- {
+		pl := pick(r, uint8(0), uint8(0), uint8(7), uint8(48), uint8(64), uint8(96), uint8(128))
 		var a [16]byte
-		a[0], a[1] = 0x20, 0x01
+		if pl > 0 {
+			a[0], a[1] = 0x20, 0x01
+		}
 		for i := 2; i < int(pl)/8; i++ {
 			a[i] = byte(r.Intn(256))
 		}
